@@ -20,6 +20,8 @@ RULE = ('Linear lag systems x = A*LAG_x + b + g*G of 1-3 variables with generate
         'non-excluded variable is negative at k=0, or the search rejected a drifting/unstable/oscillating system. '
         'Distinct: sha1 of the spec.')
 ASSUMPTIONS = [
+    'family pure-lag-tight: systems without within-period coupling are solved exactly each period, so the forward step is '
+    'A*(last-prev) and is bounded by max(1,|A|_inf)*max_j max(tol, 2e-4, tol*|x_j|) with no slack factor',
     'forward-step bound: |x1-x0|_v <= 4*max(1,|A|_inf)*(tol*max(1,|x0|_inf) + 2e-4): one forward step maps the last '
     'accepted backward change through A; 2e-4 is the code\'s own near-zero rule; factor 4 is slack',
     'systems are autonomous (no explicit dependence on k other than the excluded time axis t)',
@@ -171,7 +173,107 @@ def run(spec):
     return {'nontrivial': negative, 'labels': labels}
 
 
-FAMILIES = [Family('lag-systems', case, run, quick=3000, thorough=100000)]
+# ---------------------------------------------------------------------------------------------------
+@st.composite
+def tight_case(draw):
+    """
+    Pure lag systems (no within-period coupling, no derived variables): every period is solved exactly, so the forward
+    step equals A*(last - prev) and the acceptance rule gives a bound without slack.  Amplitudes are drawn relative to
+    the tolerance so that values sit just inside / outside the near-zero and relative thresholds.
+    """
+    n = draw(st.integers(1, 2))
+    names = ['x', 'y'][:n]
+    tol = draw(st.sampled_from(['1e-2', '1e-3', '1e-4', '5e-2', '1e-5']))
+    T = float(tol)
+    kind = draw(st.sampled_from(['flip', 'flip', 'slow-decay', 'drift', 'rotation', 'stable']))
+    A = [[0] * n for _ in range(n)]
+    b = [0] * n
+    if kind == 'flip':
+        A[0][0] = -draw(st.sampled_from([100, 100, 99, 101]))
+    elif kind == 'slow-decay':
+        A[0][0] = draw(st.sampled_from([99, 98, -98, 95]))
+    elif kind == 'drift':
+        A[0][0] = 100
+    elif kind == 'rotation' and n == 2:
+        A[0][1], A[1][0] = -100, 100
+    else:
+        A[0][0] = draw(st.integers(-90, 90))
+    if n == 2 and kind != 'rotation':
+        A[1][1] = draw(st.integers(-90, 90))
+        A[1][0] = draw(st.sampled_from([0, 0, 50, -100]))
+    u = draw(st.sampled_from([0.6, 0.9, 0.3, 0.45, 1.5, 5.0, 100.0, 0.05]))
+    ics = [[nm, repr(T * u * draw(st.sampled_from([1, -1, 0.5])))] for nm in names]
+    if kind == 'drift':
+        b[0] = draw(st.sampled_from([1, -1]))
+        drift = repr(T * u * b[0])
+    eqs = []
+    for i, nm in enumerate(names):
+        parts = []
+        for j in range(n):
+            if A[i][j]:
+                parts.append(blocks.fmt_coef_term(A[i][j], 'LAG_' + names[j], 0))
+        if kind == 'drift' and i == 0:
+            parts.append(('+', '(' + drift + ')'))
+        eqs.append([nm, blocks.join_signed(parts, ' ') if parts else '0.0', 'sim'])
+    ss_T = draw(st.sampled_from([50, 51, 20, 5, 200, 7]))
+    norm = max([sum(abs(v) for v in row) / 100.0 for row in A] + [1.0])
+    return {
+        'eqs': eqs, 'lags': [['LAG_' + nm, nm, '(k-1)'] for nm in names], 'exo': [], 'ics': ics, 'maxtime': 2, 'tol': '1e-9',
+        'layout': {'eqsp': ' = ', 'perm': None},
+        'cert': {'family': 'tight:' + kind, 'norm': norm, 'lam': {}, 'q': 0.0, 'feedforward': True},
+        'ss_T': ss_T, 'ss_tol': tol, 'reduction': draw(st.booleans()),
+    }
+
+
+def run_tight(spec):
+    from sfc_models.equation_solver import EquationSolver
+    es = EquationSolver(run_equation_reduction=spec['reduction'])
+    es.ParseString(blocks.render(spec))
+    es.ParameterInitialSteadyStateMaxTime = spec['ss_T']
+    T = float(spec['ss_tol'])
+    es.ParameterInitialSteadyStateErrorToler = T
+    kind = spec['cert']['family']
+    labels = ['kind:' + kind, 'tol:' + spec['ss_tol']]
+    es.ExtractVariableList()
+    es.SetInitialConditions()
+    before = config_snapshot(es)
+    outcome, err = 'accepted', None
+    try:
+        es.CalculateInitialSteadyState()
+    except Exception as ex:
+        outcome, err = type(ex).__name__, ex
+    if config_snapshot(es) != before:
+        raise Violation('C15/config-changed', 'the search changed the solver it initialises (%s)' % outcome)
+    labels.append('outcome:' + outcome)
+    if outcome != 'accepted':
+        if not isinstance(err, ValueError):
+            raise Violation('C15/wrong-exception', 'search ended in %s: %s' % (outcome, err))
+        return {'nontrivial': True, 'labels': labels}
+    excluded = set(['k'] + list(es.ParameterInitialSteadyStateExcludedVariables))
+    fwd = copy.deepcopy(es)
+    fwd.SolveStep(1)
+    x0 = {v: s[0] for v, s in fwd.TimeSeries.items() if v not in excluded}
+    # largest backward change the acceptance rule can have let through, per variable
+    dmax = max(max(T, 2e-4, T * abs(v)) for v in x0.values())
+    bound = max(1.0, spec['cert']['norm']) * dmax * (1.0 + 1e-6) + 1e-12
+    near = False
+    for v, s in fwd.TimeSeries.items():
+        if v in excluded:
+            continue
+        d = abs(s[1] - s[0])
+        if abs(s[0]) < 10 * T:
+            near = True
+        if not d <= bound:
+            raise Violation('C15/accepted-not-steady',
+                            '%s accepted as steady (search %d periods, tol %s) but %s moves from %r to %r in the next period; '
+                            'the acceptance rule allows at most %.6g' % (kind, spec['ss_T'], spec['ss_tol'], v, s[0], s[1], bound))
+    return {'nontrivial': near, 'labels': labels + (['value-near-threshold'] if near else [])}
+
+
+FAMILIES = [
+    Family('lag-systems', case, run, quick=3000, thorough=100000),
+    Family('pure-lag-tight', tight_case, run_tight, quick=2500, thorough=60000),
+]
 
 MANIFEST_INFO = {
     'level_text': 'Generated-input exploration over dynamic regimes (stable, unstable, drifting both ways, oscillating, '
